@@ -73,6 +73,7 @@ type Engine struct {
 	altOnly     map[string][]string
 	loopTimeCtx string // clock at entry of the loop whose clause is being evaluated
 	letFrames   [][]letBind
+	letOff      map[int]bool
 }
 
 type letBind struct{ name, term string }
@@ -257,7 +258,7 @@ func NewEngine(p *Program) *Engine {
 		fldKinds: map[string]int{}, instCount: map[string]int{}, Assumptions: map[string]bool{},
 		globalConst: map[*ssa.Global]T{}, immutable: map[*ssa.Global]int{},
 		allocIndex: map[*ssa.Function]map[string]*ssa.Alloc{}, loopCache: map[*ssa.Function]*loopInfo{}, uninterp: map[string]bool{},
-		recInfo: map[*ssa.Function]*recInfo{}, recBuilding: map[*ssa.Function]*recInfo{}, altForm: map[string]string{}, altOnly: map[string][]string{},
+		recInfo: map[*ssa.Function]*recInfo{}, recBuilding: map[*ssa.Function]*recInfo{}, altForm: map[string]string{}, altOnly: map[string][]string{}, letOff: map[int]bool{},
 		MaxInline: 14,
 	}
 	e.lines = append(e.lines, smtPrelude)
@@ -347,7 +348,7 @@ func (e *Engine) name(t T, hint string) T {
 	}
 	if e.inlineTerms > 0 {
 		// inside a quantifier / recursive definition body: share the term through a let
-		if len(e.letFrames) == 0 || len(t.S) < 60 {
+		if len(e.letFrames) == 0 || len(t.S) < 60 || e.letOff[len(e.letFrames)-1] {
 			return t
 		}
 		if t.Sort == sBool && (strings.Contains(t.S, "(forall ") || strings.Contains(t.S, "(exists ")) {
